@@ -926,7 +926,8 @@ impl C06 {
                         match t.choose(4) { 0 => InitState::None, 3 => InitState::ForeignSession, _ => InitState::Genuine },
                     ),
                 };
-                routers.push(RouterCfg { id, initial_version, init, steps: 1 + t.choose(if deep { 9 } else { 5 }) as u32 });
+                let steps = if sweep.is_some() { 4 } else { 1 + t.choose(if deep { 9 } else { 5 }) as u32 };
+                routers.push(RouterCfg { id, initial_version, init, steps });
             }
             let ops = if sweep.is_some() { (sweep.unwrap() / 54) as u32 % 3 } else { t.choose(if deep { 28 } else { 10 }) as u32 };
             let mut fk = [false; 6];
@@ -974,6 +975,7 @@ impl C06 {
             tokio::spawn(server.run());
         }
         let n_routers = routers.len();
+        let first_version = routers.first().map(|r| r.initial_version).unwrap_or(0);
         let mut handles = Vec::new();
         for r in routers {
             handles.push(tokio::spawn(router(sh.clone(), r)));
@@ -1002,6 +1004,24 @@ impl C06 {
         chaos_handle.abort();
         let _ = chaos_handle.await;
 
+        // Bounded progress without faults: a sweep cell with no chaos
+        // operation runs on a perfect transport against a ready source, so the
+        // router must have completed a step (down-negotiation included: a
+        // client that never gets through makes the property vacuous).
+        if matches!(kind, RunKind::Sweep(_)) && ops == 0 && !sh.failed() {
+            let done = sh.counters.lock().unwrap().get("steps_completed");
+            if done == 0 {
+                return Err(Violation::new(
+                    "no-progress-without-faults",
+                    format!("client-v{}-peer-{:?}", first_version, peer),
+                    format!(
+                        "a client starting at v{} never completed a step in 4 attempts against {:?} on a fault-free transport with a ready source",
+                        first_version, peer
+                    ),
+                ));
+            }
+        }
+
         // ---- bounded progress once faults have stopped (probe) ----------------
         if !sh.failed() {
             sh.faults_off.store(true, Ordering::SeqCst);
@@ -1018,8 +1038,17 @@ impl C06 {
             let after = sh.counters.lock().unwrap().get("steps_completed");
             if after > before {
                 sh.bump("probe_converged_after_faults");
-            } else {
-                sh.bump("probe_not_converged_after_faults");
+            } else if !sh.failed() {
+                // bounded progress once faults have stopped: a fresh router on
+                // a reliable transport against a ready source gets 4 attempts
+                return Err(Violation::new(
+                    "no-progress-after-faults-stopped",
+                    format!("client-v{}-peer-{:?}", v, peer),
+                    format!(
+                        "after the last fault a fresh client starting at v{} did not complete a step in 4 attempts against {:?}",
+                        v, peer
+                    ),
+                ));
             }
         }
         listener.close();
@@ -1129,6 +1158,7 @@ impl Scenario for C06 {
             "duplicate announcements / unknown withdrawals are probes, not violations: the statement only fixes the resulting set",
             "a cancelled step() future is never resumed on the same client (documented as a way to stop)",
             "LegacyCache is a stub peer written from RFC 6810/8210",
+            "bounded progress: on a fault-free transport with a ready source (sweep cells without chaos operations, and the fresh router started after the last fault of every run) a client must complete a step within 4 attempts for every client version x peer combination - otherwise 'holds for every version, including downgrade' would be vacuous",
         ]
     }
 
